@@ -191,6 +191,7 @@ func rulesC14(c *Ctx) {
 	c.Floor("C14.fresh", nClone, 5)
 	// compiled regexps: (*regexp.Regexp).Longest mutates its receiver, so a
 	// shared pointer is a shared mutable node; CloneRegexLiteral recompiles
+	recompileSourceRule(c, "C14.regexsource")
 	c.Rule("C14.regexcopy", "a clone function that builds a RegexLiteral gives it its own compiled regexp (recompiled or copied, as CloneRegexLiteral does), never the source's *regexp.Regexp itself: Regexp.Longest() changes the matcher in place, so a shared pointer lets a change to the clone alter how the original matches")
 	nRe := 0
 	for _, f := range p.SortedFuncs() {
